@@ -107,6 +107,24 @@ pub fn cases(tier: &str, _seed: u64) -> Vec<Case> {
         if (class_of(&out) == "ok") != label_ok(l.as_bytes()) { c = c.fail("label-grammar", format!("label {:?}", l)); }
         v.push(c);
     }
+    // every ASCII character (controls, space, punctuation, `*`, `@`, `~`, DEL ...) alone and in the first, an inner and
+    // the last place of a label, as text and through Label::new; all bytes 0x80..0xFF through Label::new
+    for ch in 0u8..128 {
+        let c = ch as char;
+        for s in [format!("{}", c), format!("a{}", c), format!("{}a", c), format!("a{}a", c), format!("{}.a", c), format!("a.{}", c), format!("a{}.b{}b.{}c", c, c, c)] {
+            v.push(new_case(&s, "ascii-sweep"));
+        }
+    }
+    for ch in 0u16..256 {
+        let ch = ch as u8;
+        for lb in [vec![ch], vec![b'a', ch], vec![ch, b'a'], vec![b'a', ch, b'a']] {
+            let l2 = lb.clone();
+            let out = guard(move || match Label::new(l2) { Ok(x) => format!("ok {}", text::hex(x.as_bytes())), Err(_) => "err".to_string() });
+            let mut c = Case::new(format!("label.new {}", text::hex(&lb)), out.clone()).tag("label.new").tag("byte-sweep");
+            if (class_of(&out) == "ok") != label_ok(&lb) { c = c.fail("label-grammar", format!("label {:?}", lb)); }
+            v.push(c);
+        }
+    }
     // encoded name lengths 245..262 in several shapes
     for total in 245..=262usize {
         for first in [1usize, 30, 63] {
@@ -135,6 +153,19 @@ pub fn cases(tier: &str, _seed: u64) -> Vec<Case> {
     }
     for extra in [vec![b"x".to_vec(), b"local".to_vec()], vec![b"LoCaL".to_vec()], vec![b"local".to_vec(), b"a".to_vec()], vec![b"A".to_vec()], vec![b"locaL".to_vec()], vec![b"loca\x8c".to_vec()], vec![b"a".to_vec(), b"LOCAL".to_vec()]] {
         names.push(extra);
+    }
+    // labels that are byte-suffixes / prefixes of one another, so that a text suffix need not fall on a label boundary
+    // (`office.laserprinter.local` is not under `printer.local`; `nonlocal` is not `local`)
+    {
+        let pool: [&[u8]; 14] = [b"printer", b"laserprinter", b"local", b"nonlocal", b"mylocal", b"x-local", b"localx", b"ab", b"b", b"c", b"office", b"al", b"loc", b"l"];
+        let mut r = crate::rng::Rng::new(0xC17);
+        let mut extra: Vec<Vec<Vec<u8>>> = vec![];
+        for l in pool { extra.push(vec![l.to_vec()]); extra.push(vec![b"www".to_vec(), l.to_vec()]); }
+        for _ in 0..(if tier == "thorough" { 160 } else { 50 }) {
+            let n = 1 + r.below(4) as usize;
+            extra.push((0..n).map(|_| r.pick(&pool).to_vec()).collect());
+        }
+        names.extend(extra);
     }
     for a in &names {
         for b in &names {
